@@ -8,6 +8,12 @@ package dastard
 // the consumer not being scheduled. The queue depth constant is made settable (1000 is not
 // reachable exhaustively; the code is identical).
 //
+// Publisher-level kinds ("offpub", "multipub": the writers behind a DataPublisher) additionally have pause / resume
+// in their alphabet (v07Scenario.pauseAt / resumeAt, v07PauseVariants): SetPause(true) between two records - before
+// the explicit Flush of that position - and possibly SetPause(false) later. A record published while paused is
+// not accepted; the oracle is unchanged (every file == header ++ accepted whole records in order when an explicit
+// Flush or the close returns, paused or not).
+//
 // Tick scenarios (v07Scenario.ticks > 0): writeLoop's periodic-flush ticker is a seam (asyncbufio.VerifNewTicker,
 // default time.NewTicker) whose channel is fed by a clock thread under the scheduler, so that a bounded number of
 // periodic flushes happen at arbitrary points; in these scenarios the consumer can also be stalled right before
@@ -49,6 +55,13 @@ type v07Target struct {
 	headerEnd func(b []byte) int // length of the header in the file (-1 if malformed)
 	// took reports whether this file's writer accepted a record, given what record(k) returned (nil: err == nil)
 	took func(err error) bool
+}
+
+// v07Pauser: a writer that sits behind a DataPublisher can be paused and resumed (DataPublisher.SetPause, what the
+// PAUSE / UNPAUSE requests of WriteControl do to every channel). While writing is paused PublishData stores
+// nothing (and reports no error): such a record is not accepted. Flush and Remove* stay what they are.
+type v07Pauser interface {
+	pause(on bool)
 }
 
 type v07Image interface {
@@ -225,6 +238,7 @@ func (v *v07Pub) rec(k int) *DataRecord {
 }
 func (v *v07Pub) record(k int) error   { return v.dp.PublishData([]*DataRecord{v.rec(k)}) }
 func (v *v07Pub) flush()               { v.dp.Flush() }
+func (v *v07Pub) pause(on bool)        { v.dp.SetPause(on) }
 func (v *v07Pub) close()               { v.dp.RemoveOFF() }
 func (v *v07Pub) targets() []v07Target { return v07One(v.path, v) }
 func (v *v07Pub) recBytes(k int) []byte {
@@ -282,6 +296,7 @@ func (v *v07Multi) rec(k int) *DataRecord {
 }
 func (v *v07Multi) record(k int) error { return v.dp.PublishData([]*DataRecord{v.rec(k)}) }
 func (v *v07Multi) flush()             { v.dp.Flush() }
+func (v *v07Multi) pause(on bool)      { v.dp.SetPause(on) }
 func (v *v07Multi) close() {
 	v.dp.RemoveLJH22()
 	v.dp.RemoveLJH3()
@@ -359,6 +374,22 @@ type v07Scenario struct {
 	nrec    int
 	flushAt int // flush after this many records (-1 = no explicit flush)
 	ticks   int // periodic-flush ticks a clock thread offers at arbitrary points (0: the real 3 s ticker, which never fires)
+	// publisher kinds only (v07Pauser): writing is paused (SetPause(true)) after this many records, before the flush
+	// of that position if there is one (0 = never), and resumed (SetPause(false)) after this many (0 = never;
+	// otherwise > pauseAt). Records published in between are not accepted.
+	pauseAt  int
+	resumeAt int
+}
+
+func (sc v07Scenario) caseID() string {
+	id := fmt.Sprintf("%s/depth%d/rec%d/flush%d", sc.kind, sc.depth, sc.nrec, sc.flushAt)
+	if sc.pauseAt > 0 {
+		id += fmt.Sprintf("/pause%d", sc.pauseAt)
+		if sc.resumeAt > 0 {
+			id += fmt.Sprintf("/resume%d", sc.resumeAt)
+		}
+	}
+	return id
 }
 
 const v07ClockPoint = 930
@@ -382,9 +413,11 @@ func (sc v07Scenario) run(x *vexp.X, dir string) vexp.Result {
 			viol, class = fmt.Sprintf(f, a...), c
 		}
 	}
-	var accepted []int // records whose WriteRecord / PublishData returned nil
+	var accepted []int // records whose WriteRecord / PublishData returned nil (while writing was not paused)
 	headerOK := false
 	var rejected []int
+	var ignored []int // records published while writing was paused: not accepted, nothing of them may reach a file
+	paused := false
 	took := make([][]int, len(tgts)) // per file: the records its writer accepted
 	// checkTarget: the file must be header ++ whole accepted records in order, and hold all those accepted so far
 	checkTarget := func(when string, t v07Target, accepted []int) {
@@ -477,19 +510,39 @@ func (sc v07Scenario) run(x *vexp.X, dir string) vexp.Result {
 				break
 			}
 			err := w.record(k)
-			if err == nil {
-				accepted = append(accepted, k)
+			if paused {
+				// PublishData stores nothing while writing is paused: no writer was offered this record
+				ignored = append(ignored, k)
 			} else {
-				rejected = append(rejected, k)
+				if err == nil {
+					accepted = append(accepted, k)
+				} else {
+					rejected = append(rejected, k)
+				}
+				for i, t := range tgts {
+					if (t.took == nil && err == nil) || (t.took != nil && t.took(err)) {
+						took[i] = append(took[i], k)
+					}
+				}
 			}
-			for i, t := range tgts {
-				if (t.took == nil && err == nil) || (t.took != nil && t.took(err)) {
-					took[i] = append(took[i], k)
+			// PAUSE / UNPAUSE between two records. Nothing is demanded of the files when SetPause returns (it is
+			// not a flush call of the property); an explicit Flush() that follows is one, paused or not.
+			if p, ok := w.(v07Pauser); ok {
+				if k == sc.pauseAt {
+					p.pause(true)
+					paused = true
+				} else if k == sc.resumeAt && sc.pauseAt > 0 {
+					p.pause(false)
+					paused = false
 				}
 			}
 			if k == sc.flushAt {
 				w.flush()
-				checkFile(fmt.Sprintf("when Flush returned after record %d", k))
+				when := fmt.Sprintf("when Flush returned after record %d", k)
+				if paused {
+					when += " (writing paused)"
+				}
+				checkFile(when)
 			}
 		}
 		w.close()
@@ -524,11 +577,20 @@ func (sc v07Scenario) run(x *vexp.X, dir string) vexp.Result {
 		return vexp.Result{Violation: viol, Class: class, Nontrivial: taken > 0,
 			Outcome: fmt.Sprintf("acc=%v rej=%v hdr=%v ticks=%d", accepted, rejected, headerOK, taken)}
 	}
-	if viol != "" {
-		viol = fmt.Sprintf("%s depth=%d records=%d flushAt=%d: %s\nschedule: %s", sc.kind, sc.depth, sc.nrec, sc.flushAt, viol, s.TraceString())
+	outcome := fmt.Sprintf("acc=%v rej=%v hdr=%v", accepted, rejected, headerOK)
+	pauseTxt := ""
+	if sc.pauseAt > 0 {
+		outcome += fmt.Sprintf(" paused-after=%d resumed-after=%d not-stored=%v", sc.pauseAt, sc.resumeAt, ignored)
+		pauseTxt = fmt.Sprintf(" SetPause(true) after record %d", sc.pauseAt)
+		if sc.resumeAt > 0 {
+			pauseTxt += fmt.Sprintf(" SetPause(false) after record %d", sc.resumeAt)
+		}
+		pauseTxt += fmt.Sprintf(" (published while paused, not stored: %v)", ignored)
 	}
-	return vexp.Result{Violation: viol, Class: class, Nontrivial: len(rejected) > 0 || out.Preempt > 0,
-		Outcome: fmt.Sprintf("acc=%v rej=%v hdr=%v", accepted, rejected, headerOK)}
+	if viol != "" {
+		viol = fmt.Sprintf("%s depth=%d records=%d flushAt=%d%s: %s\nschedule: %s", sc.kind, sc.depth, sc.nrec, sc.flushAt, pauseTxt, viol, s.TraceString())
+	}
+	return vexp.Result{Violation: viol, Class: class, Nontrivial: len(rejected) > 0 || out.Preempt > 0, Outcome: outcome}
 }
 
 func TestVerifC07(t *testing.T) {
@@ -539,7 +601,7 @@ func TestVerifC07(t *testing.T) {
 	if r.Thorough() {
 		pb = 3
 	}
-	r.SetBound(fmt.Sprintf("all interleavings of producer (create, header, 2-3 records, optional flush, close) and the real writeLoop goroutine with at most %d preemptions, all select alternatives; writers LJH2.2, LJH3, OFF, OFF driven through DataPublisher.PublishData (one record per call), and one DataPublisher with LJH2.2, LJH3 and OFF all active (one PublishData per record, DataPublisher.Flush, Remove*; three writeLoop goroutines, delay-bounded: at most 2 departures from the canonical thread / select-case choice; all three files checked when Flush and Close return; quick: 2 records, flush after record 1 or none; OFF queue depth 20 or 9, LJH queue depth 20); queue depth 2..20; tick scenarios (the bare asynchronous writer at depths 1 and 3, LJH2.2 depth 4, LJH3 depth 6, OFF depth 9; 1-2 records, no flush / flush after record 1 / after the last): a clock thread offers 1 periodic-flush tick (bare writer at depth 1: also 2) at arbitrary points, the consumer can also be stalled before every bufio Write / Flush call and every atomic operation is a scheduling point; at most 3 preemptions for the one-record LJH scenarios and the bare writer with one tick, 2 otherwise; LJH3 and OFF without the flush after record 1 of 2 (thorough: up to 3 records, all flush positions, 3 preemptions up to 2 records)", pb))
+	r.SetBound(fmt.Sprintf("all interleavings of producer (create, header, 2-3 records, optional flush, close) and the real writeLoop goroutine with at most %d preemptions, all select alternatives; writers LJH2.2, LJH3, OFF, OFF driven through DataPublisher.PublishData (one record per call), and one DataPublisher with LJH2.2, LJH3 and OFF all active (one PublishData per record, DataPublisher.Flush, Remove*; three writeLoop goroutines, delay-bounded: at most 2 departures from the canonical thread / select-case choice; all three files checked when Flush and Close return; quick: 2 records, flush after record 1 or none; OFF queue depth 20 or 9, LJH queue depth 20); both publisher-level writers also with writing paused (DataPublisher.SetPause(true)) after record p, immediately before the explicit Flush of that position, so that the Flush is issued while paused; records published while paused are not accepted and must not reach a file; quick: p = the flush position or 1, never resumed, and with 3 records / flush after record 1 paused after record 1 and resumed (SetPause(false)) after record 2; thorough: at OFF queue depth 9 every p, resumed never or after any later record, with and without an explicit flush; queue depth 2..20; tick scenarios (the bare asynchronous writer at depths 1 and 3, LJH2.2 depth 4, LJH3 depth 6, OFF depth 9; 1-2 records, no flush / flush after record 1 / after the last): a clock thread offers 1 periodic-flush tick (bare writer at depth 1: also 2) at arbitrary points, the consumer can also be stalled before every bufio Write / Flush call and every atomic operation is a scheduling point; at most 3 preemptions for the one-record LJH scenarios and the bare writer with one tick, 2 otherwise; LJH3 and OFF without the flush after record 1 of 2 (thorough: up to 3 records, all flush positions, 3 preemptions up to 2 records)", pb))
 	dir := filepath.Join(os.Getenv("TMPDIR"), "c07")
 	os.MkdirAll(dir, 0755)
 	vhook.Doc(v07ClockPoint, "clock: select{tick|producer done}")
@@ -558,7 +620,8 @@ func TestVerifC07(t *testing.T) {
 					if kind == "multipub" && !r.Thorough() && (nrec > 2 || fa > 1) {
 						continue // four goroutines: the schedule space is much larger
 					}
-					scs = append(scs, v07Scenario{kind, d, nrec, fa, 0})
+					scs = append(scs, v07Scenario{kind: kind, depth: d, nrec: nrec, flushAt: fa})
+					scs = append(scs, v07PauseVariants(v07Scenario{kind: kind, depth: d, nrec: nrec, flushAt: fa}, r.Thorough())...)
 				}
 			}
 		}
@@ -569,7 +632,7 @@ func TestVerifC07(t *testing.T) {
 		if sc.kind == "multipub" {
 			pb = 2 // delay bound (see run)
 		}
-		r.DFSSharded(fmt.Sprintf("%s/depth%d/rec%d/flush%d", sc.kind, sc.depth, sc.nrec, sc.flushAt), pb, 3, func(x *vexp.X) vexp.Result {
+		r.DFSSharded(sc.caseID(), pb, 3, func(x *vexp.X) vexp.Result {
 			return sc.run(x, dir)
 		})
 	}
@@ -580,6 +643,44 @@ func TestVerifC07(t *testing.T) {
 			return sc.run(x, dir)
 		})
 	}
+}
+
+// v07PauseVariants: the pause / resume variants of a publisher-level scenario (the writer kinds behind a
+// DataPublisher). Writing is paused after record pauseAt - before the explicit Flush of that position, so that
+// "records accepted, PAUSE, Flush()" is a flush call made while paused - and possibly resumed after a later
+// record; what is published in between is not accepted. quick: pause at or before the flush position, never
+// resumed, and (3 records, flush after record 1) paused after record 1 and resumed after record 2;
+// thorough: at OFF queue depth 9 every 1 <= pauseAt <= nrec, resumed never or after any later record, also without
+// an explicit flush (at depth 20, where three preemptions make a scenario 10-20 times larger, quick's selection).
+func v07PauseVariants(sc v07Scenario, thorough bool) []v07Scenario {
+	if sc.kind != "offpub" && sc.kind != "multipub" {
+		return nil
+	}
+	full := thorough && sc.depth <= 9
+	var out []v07Scenario
+	for pa := 1; pa <= sc.nrec; pa++ {
+		for ra := 0; ra <= sc.nrec; ra++ {
+			if ra != 0 && ra <= pa {
+				continue
+			}
+			if !full {
+				switch {
+				case sc.flushAt < 0 || pa > sc.flushAt:
+					continue // the explicit flush is issued while paused
+				case ra != 0 && !(sc.nrec == 3 && sc.flushAt == 1 && ra == 2):
+					continue
+				case sc.nrec == 3 && sc.flushAt == 1 && ra == 0:
+					continue // as 2 records / flush after 1 / pause after 1 with one more ignored record
+				case sc.nrec == 3 && sc.flushAt == 2 && pa == 1:
+					continue
+				}
+			}
+			v := sc
+			v.pauseAt, v.resumeAt = pa, ra
+			out = append(out, v)
+		}
+	}
+	return out
 }
 
 func (sc v07Scenario) tickCase(prefix string) string {
@@ -617,7 +718,7 @@ func v07TickScenarios(thorough, small bool) []v07Scenario {
 						if tk > 1 && d > 1 && !thorough {
 							continue // two ticks: at the smallest queue only
 						}
-						scs = append(scs, v07Scenario{kind, d, nrec, fa, tk})
+						scs = append(scs, v07Scenario{kind: kind, depth: d, nrec: nrec, flushAt: fa, ticks: tk})
 					}
 				}
 			}
@@ -668,7 +769,7 @@ func TestVerifC05BP(t *testing.T) {
 		for _, d := range depths {
 			for _, nrec := range []int{2, 3} {
 				for _, fa := range []int{-1, 1} {
-					sc := v07Scenario{kind, d, nrec, fa, 0}
+					sc := v07Scenario{kind: kind, depth: d, nrec: nrec, flushAt: fa}
 					r.DFSSharded(fmt.Sprintf("bp/%s/depth%d/rec%d/flush%d", sc.kind, sc.depth, sc.nrec, sc.flushAt), pb, 3, func(x *vexp.X) vexp.Result {
 						return sc.run(x, dir)
 					})
